@@ -1210,7 +1210,11 @@ void Logic::dumpWithLets(std::ostream & dump_out, PTRef formula) const {
 
         unprocessed_enodes.pop_back();
 
-        std::string definition = "?def" + std::to_string(random_Idx++);
+        // the let variables must not capture a symbol of the formula (a user may have declared ?def0)
+        std::string definition;
+        do {
+            definition = "?def" + std::to_string(random_Idx++);
+        } while (hasSym(definition.c_str()));
         // Open let
         dump_out << "(let ";
         // Open binding
@@ -1247,24 +1251,28 @@ void Logic::dumpHeaderToFile(std::ostream & dump_out) const {
     dump_out << "(set-logic " << getName() << ")\n";
     for (SSymRef ssr : sort_store.getSortSyms()) {
         if (isBuiltinSortSym(ssr)) continue;
-        dump_out << "(declare-sort " << sort_store.getSortSymName(ssr) << " " << sort_store.getSortSymSize(ssr)
+        dump_out << "(declare-sort " << protectName(sort_store.getSortSymName(ssr), false) << " " << sort_store.getSortSymSize(ssr)
                  << ")\n";
     }
 
     vec<SymRef> const & symbols = sym_store.getSymbols();
     for (SymRef s : symbols) {
         if (s == getSym_true() || s == getSym_false()) continue;
+        Symbol const & symb = sym_store[s];
+        // not the user's: the internal negation, the instances of ite, the abstract values of uninterpreted sorts
+        if (s == sym_UF_NOT or isIte(s)) continue;
         if (isConstant(s)) {
-            if (isBuiltinConstant(s)) continue;
-            dump_out << "(declare-const ";
+            if (isBuiltinConstant(s) or not isKnownToUser(s)) continue;
+            // (declare-const <symbol> <sort>): the bare name (symToString would qualify the abstract values with `as`)
+            dump_out << "(declare-const " << protectName(s) << " " << sortToString(symb.rsort()) << ")\n";
+            continue;
         }
         // else if (!isUF(s) && !isVar(s)) continue;
         else if (isBuiltinFunction(s))
             continue;
         else { dump_out << "(declare-fun "; }
-        auto sym = symToString(s);
-        dump_out << sym << " ";
-        Symbol const & symb = sym_store[s];
+        // the bare name: a declaration cannot be qualified
+        dump_out << protectName(s) << " ";
         dump_out << "(";
         for (SRef sr : symb) {
             dump_out << sortToString(sr) << " ";
